@@ -180,6 +180,18 @@ Theorem C16_identity_closed_form : forall succ pred pow Phi PhiInv pow15 (H : Ty
 Proof. exact roc_with_ci_identity. Qed.
 Print Assumptions C16_identity_closed_form.
 
+(* ... and under the identity sampler both bands are NaN-free and ordered with no hypothesis on norm.cdf / norm.ppf
+   (only 0 <= math.pow(alpha, .) <= 1 for the substituted intervals) *)
+Theorem C16_identity_ordered : forall succ pred pow Phi PhiInv pow15 (H : Type) dynamic_choice builtin_sample
+    s fnr0 fpr0 thr0 nb_points x alpha cfg (hist : nat -> H) c,
+  (forall a e, 0 < a -> a < 1 -> 0 <= pow a e /\ pow a e <= 1) ->
+  proper s -> identity_sampler H dynamic_choice builtin_sample s cfg hist -> 0 < alpha -> alpha < 1 -> (0 < nb_samples cfg)%nat ->
+  roc_with_ci succ pred pow Phi PhiInv pow15 H dynamic_choice builtin_sample s fnr0 fpr0 thr0 nb_points x alpha cfg hist = Ret c ->
+  exists fb pb, rc_fnr_ci c = Some fb /\ rc_fpr_ci c = Some pb /\
+    some_rows (length (rc_thresholds c)) fb /\ some_rows (length (rc_thresholds c)) pb /\ ordered_rows fb /\ ordered_rows pb.
+Proof. exact roc_with_ci_identity_ordered. Qed.
+Print Assumptions C16_identity_ordered.
+
 (* ---------------- the experimental band functions ---------------- *)
 (* pointwise_band_ci: accepts its arguments (the call of _find_support_thresholds uses its defaults: no extra points,
    x_axis "fnr"); under an identity sampler the same closed-form intervals, not aggregated *)
@@ -199,6 +211,21 @@ Theorem C16_pointwise_band_identity : forall succ pred pow Phi PhiInv pow15 (H :
                              (Some (apply_rule_of_three pow fpr fpr_pw alpha (nb_all_neg s)))).
 Proof. exact pointwise_band_identity. Qed.
 Print Assumptions C16_pointwise_band_identity.
+
+(* pointwise_band_ci, any sampler obeying the at-least-one rule: rates match thresholds, both bands (n,2), every limit a
+   number within [0,1] *)
+Theorem C16_pointwise_band_wellformed : forall succ pred pow Phi PhiInv pow15 (H : Type) dynamic_choice builtin_sample,
+  (forall a e, 0 < a -> a < 1 -> 0 <= pow a e /\ pow a e <= 1) ->
+  forall s fnr0 fpr0 thr0 nb_points alpha cfg (hist : nat -> H) c,
+  proper s -> 0 < alpha -> alpha < 1 -> (0 < nb_samples cfg)%nat ->
+  samples_proper H dynamic_choice builtin_sample s cfg hist ->
+  pointwise_band_ci succ pred pow Phi PhiInv pow15 H dynamic_choice builtin_sample s fnr0 fpr0 thr0 nb_points alpha cfg hist = Ret c ->
+  find_support_thresholds succ pred s fnr0 fpr0 thr0 nb_points default_nb_extra_points default_x_axis = Ret (rc_thresholds c) /\
+  rc_fnr c = rates_at s_fnr s (rc_thresholds c) /\ rc_fpr c = rates_at s_fpr s (rc_thresholds c) /\
+  exists fb pb, rc_fnr_ci c = Some fb /\ rc_fpr_ci c = Some pb /\
+    unit_rows (length (rc_thresholds c)) fb /\ unit_rows (length (rc_thresholds c)) pb.
+Proof. exact pointwise_band_wellformed. Qed.
+Print Assumptions C16_pointwise_band_wellformed.
 
 (* simultaneous_joint_region_ci: rates match thresholds, bands of shape (n,2), NaN-free, ordered (KS critical values
    >= 0); not confined to [0,1] (the property claims that for roc_with_ci only) *)
